@@ -224,6 +224,21 @@ Definition Unowned (w : world) (o : op) : bool :=
   | _ => false
   end.
 
+(* the root element of model m has a type that is a named type (never the case for the real tables: AUTOSAR has no
+   SHORT-NAME); remove_file of the last file could then fail to delete a SHORT-NAME child of the root *)
+Definition root_named (w : world) (o : op) : bool :=
+  match o with
+  | OpRemoveFile m _ =>
+    match model_b w m with
+    | Some x => match w_nodes w (m_root x) with
+                | Some rn => match is_named T (n_type rn) with Val false => false | _ => true end
+                | None => true
+                end
+    | None => false
+    end
+  | _ => false
+  end.
+
 (* remove_file of the LAST file of a model *)
 Definition last_file (w : world) (o : op) : bool :=
   match o with
